@@ -854,7 +854,9 @@ class Monitor:
 						# whose sender-side values explain the datagram
 						if cand is None:
 							cand = e
-						if R.fake_rssi or d["rssi"] == e.S.nominal - e.S.att - e.b.pwr - 110:
+						rssi_fits = R.fake_rssi or "rssi" in R.taint or d["rssi"] == e.S.nominal - e.S.att - e.b.pwr - 110
+						toa_fits = "toa" in R.taint or (R.toa[0] - abs(R.toa[1]) - 256 * e.S.ta <= d["toa256"] <= R.toa[0] + abs(R.toa[1]) - 256 * e.S.ta)
+						if rssi_fits and toa_fits:
 							cand = e
 							break
 			if cand is None:
